@@ -25,10 +25,12 @@ Lemma f9_refuted :
   let ws := srun env_id (Some [0]) f9_history in
   forallb (fun e => match e with ESvc _ (Some s) => svc_ok s | _ => true end) f9_history = true /\
   stale_after env_id ([], sinit (Some [0])) false f9_history = false /\
+  final_cfg_ok env_id (snd ws) = false /\
   s_l2 (snd ws) 0 <> None /\ s_l2 (fresh env_id (snd ws) (fst ws)) 0 = None /\
   ~ announced_equiv (snd ws) (fresh env_id (snd ws) (fst ws)).
 Proof.
-  cbv zeta. split; [reflexivity|]. split; [vm_compute; reflexivity|]. split; [vm_compute; discriminate|].
+  cbv zeta. split; [reflexivity|]. split; [vm_compute; reflexivity|]. split; [vm_compute; reflexivity|].
+  split; [vm_compute; discriminate|].
   split; [vm_compute; reflexivity|]. intros [H _]. specialize (H 0). vm_compute in H. exact H.
 Qed.
 
@@ -44,11 +46,13 @@ Definition f25_history : list sev :=
 Lemma f25_refuted :
   let ws := srun env_rev None f25_history in
   forallb (event_ok env_rev) f25_history = true /\
+  forallb esvc_ok f25_history = true /\ final_cfg_ok env_rev (snd ws) = true /\
   stale_after env_rev ([], sinit None) false f25_history = true /\
   s_l2 (snd ws) 0 <> None /\ s_l2 (fresh env_rev (snd ws) (fst ws)) 0 = None /\
   ~ announced_equiv (snd ws) (fresh env_rev (snd ws) (fst ws)).
 Proof.
-  cbv zeta. split; [vm_compute; reflexivity|]. split; [vm_compute; reflexivity|]. split; [vm_compute; discriminate|].
+  cbv zeta. split; [vm_compute; reflexivity|]. split; [vm_compute; reflexivity|]. split; [vm_compute; reflexivity|].
+  split; [vm_compute; reflexivity|]. split; [vm_compute; discriminate|].
   split; [vm_compute; reflexivity|]. intros [H _]. specialize (H 0). vm_compute in H. exact H.
 Qed.
 
@@ -57,3 +61,26 @@ Lemma f25_with_resync :
   let ws := srun env_rev None (f25_history ++ [EResync]) in
   s_l2 (snd ws) 0 = None /\ stale_after env_rev ([], sinit None) false (f25_history ++ [EResync]) = false.
 Proof. vm_compute. split; reflexivity. Qed.
+
+(* boundary of the hypothesis esvc_ok: a status that repeats an address.  compareIPs([a;a],[a;b]) holds
+   (same length, every new address is an old one), so the old announcement of b is not withdrawn. *)
+Definition dup_history : list sev :=
+  [ ENode (w_node 0);
+    ECfg (w_cfg [ {| la_nodes := [0]; la_ifs := []; la_all := true |} ]);
+    ESvc 0 (Some {| sv_lb := true; sv_ips := Some [V4 169090561; V4 169090562]; sv_local := false; sv_eps := sv_eps (w_svc 0) |});
+    ESvc 0 (Some {| sv_lb := true; sv_ips := Some [V4 169090561; V4 169090561]; sv_local := false; sv_eps := sv_eps (w_svc 0) |}) ].
+
+Lemma repeated_address_refuted :
+  let ws := srun env_id (Some [0]) dup_history in
+  forallb esvc_ok dup_history = false /\
+  final_cfg_ok env_id (snd ws) = true /\
+  stale_after env_id ([], sinit (Some [0])) false dup_history = false /\
+  ~ announced_equiv (snd ws) (fresh env_id (snd ws) (fst ws)).
+Proof.
+  cbv zeta. split; [vm_compute; reflexivity|]. split; [vm_compute; reflexivity|]. split; [vm_compute; reflexivity|].
+  intros [H _]. specialize (H 0). vm_compute in H.
+  destruct (H {| le_ip := V4 169090562; le_all := true; le_ifs := [] |}) as [H1 _].
+  assert (X : In {| le_ip := V4 169090562; le_all := true; le_ifs := [] |}
+                 [ {| le_ip := V4 169090561; le_all := true; le_ifs := [] |} ]) by (apply H1; right; left; reflexivity).
+  destruct X as [X|[]]. discriminate.
+Qed.
